@@ -20,6 +20,7 @@ import (
 	"io"
 	"math"
 	"os"
+	"path/filepath"
 	"sort"
 	"strings"
 	"time"
@@ -129,6 +130,77 @@ func c14summary(m modeling.Mesh) string {
 // ---- the readers, each returning class + summary ------------------------------------------------
 
 type c14reader func(data []byte) c14out
+
+// on-disk entry points: the format's Load helpers, fed the same bytes through a temp file in the run's work dir
+type c14diskEntry struct {
+	name string
+	load func(path string) c14out
+}
+
+func c14workDir() string {
+	for i, a := range os.Args {
+		if a == "-out" && i+1 < len(os.Args) {
+			return os.Args[i+1]
+		}
+	}
+	return os.TempDir()
+}
+
+var c14tmpSeq int
+
+func c14withTempFile(data []byte, ext string, f func(path string) c14out) c14out {
+	c14tmpSeq++
+	p := filepath.Join(c14workDir(), fmt.Sprintf("c14cut-%d-%d%s", os.Getpid(), c14tmpSeq%8, ext))
+	if err := os.WriteFile(p, data, 0o644); err != nil {
+		return c14out{"tempfile-error", ""}
+	}
+	defer os.Remove(p)
+	return f(p)
+}
+
+func c14meshOut(m *modeling.Mesh, err error, cls func(*modeling.Mesh) string) c14out {
+	if err != nil {
+		return c14out{"err", ""}
+	}
+	if m == nil {
+		return c14out{"ok:nil-mesh", ""} // err == nil and no mesh: a rejected file reported as success
+	}
+	return c14out{cls(m), c14summary(*m)}
+}
+
+func c14diskEntries(format string) []c14diskEntry {
+	plyCls := func(m *modeling.Mesh) string { return fmt.Sprintf("ok:%d:%d", m.AttributeLength(), m.Indices().Len()) }
+	switch format {
+	case "ply":
+		return []c14diskEntry{
+			{"ply.Load", func(p string) c14out { m, err := ply.Load(p); return c14meshOut(m, err, plyCls) }},
+			{"ply.MeshReader.Load", func(p string) c14out {
+				// a custom reader configuration: every property as a scalar attribute of its own name
+				mr := ply.MeshReader{AttributeElement: ply.VertexElementName, LoadUnspecifiedProperties: true}
+				m, err := mr.Load(p)
+				return c14meshOut(m, err, plyCls)
+			}},
+		}
+	case "stl":
+		return []c14diskEntry{{"stl.Load", func(p string) c14out {
+			m, err := stl.Load(p)
+			return c14meshOut(m, err, func(m *modeling.Mesh) string { return fmt.Sprintf("ok:%d", m.PrimitiveCount()) })
+		}}}
+	case "spz":
+		return []c14diskEntry{{"spz.Load", func(p string) c14out {
+			cl, err := spz.Load(p)
+			if err != nil {
+				return c14out{"err", ""}
+			}
+			if cl == nil {
+				return c14out{"ok:nil-mesh", ""}
+			}
+			dim, _ := cl.Header.ShDimensions()
+			return c14out{fmt.Sprintf("ok:%d:%d", cl.Header.NumPoints, dim), c14summary(cl.Mesh)}
+		}}}
+	}
+	return nil
+}
 
 func c14readStl(data []byte) c14out { return c14readStlR(bytes.NewReader(data)) }
 
@@ -358,6 +430,25 @@ func (c *Ctx) c14drive(f c14file) {
 			}
 		} else {
 			specParts[i] = fmt.Sprintf("%d", k)
+		}
+		// the on-disk Load helpers must give the verdict of the in-memory reader on the same bytes
+		for _, de := range c14diskEntries(f.format) {
+			de := de
+			dr := c14withTempFile(prefix, "."+f.format, func(p string) c14out { return c14guard(func() c14out { return de.load(p) }) })
+			memCls := r.class
+			if de.name == "ply.MeshReader.Load" && strings.HasPrefix(memCls, "ok:") {
+				memCls = "ok" // a different reader configuration: compare the verdict, not the attribute layout
+				if strings.HasPrefix(dr.class, "ok:") && dr.class != "ok:nil-mesh" {
+					dr.class = "ok"
+				}
+			}
+			if dr.class != memCls || k == len(f.data) || sampled[k] {
+				c.Emit("c14.holds.disk_agrees", fmt.Sprintf("%s %s %d %s %s", f.format, de.name, k, memCls, dr.class), "true")
+			}
+			c.Note("c14.disk." + de.name)
+			if dr.class == "timeout" {
+				c.c14flushExit()
+			}
 		}
 		isOk := strings.HasPrefix(r.class, "ok")
 		bad := r.class == "panic" || r.class == "timeout"
@@ -901,7 +992,22 @@ func runC14(c *Ctx) {
 				mesh = c.c14mesh(nv, nt, normals, false, false)
 			}
 			if err := stl.WriteMesh(&b, mesh); err == nil {
-				c.c14drive(c14file{format: "stl", data: b.Bytes(), model: b.Bytes(), read: c14readStl, readR: c14readStlR, label: "stl"})
+				data := b.Bytes()
+				label := "stl"
+				// the 80-byte header is free text: zero (the writer's), random, and ASCII-STL-looking text
+				hdrs := []string{"", "solid OpenSCAD_Model", "solid", " solid x", "COLOR=\xff\x00\x00\xff solid", "solid cube\nfacet normal 0 0 1\n outer loop\n", "random"}
+				hs := hdrs[k%len(hdrs)]
+				if hs != "" && len(data) >= 80 {
+					hb := make([]byte, 80)
+					if hs == "random" {
+						c.Rng.Read(hb)
+					} else {
+						copy(hb, hs)
+					}
+					copy(data[:80], hb)
+					label = "stl.header." + []string{"zero", "solid-name", "solid", "space-solid", "color", "solid-ascii-text", "random"}[k%len(hdrs)]
+				}
+				c.c14drive(c14file{format: "stl", data: data, model: data, read: c14readStl, readR: c14readStlR, label: label})
 			}
 		}
 
